@@ -272,8 +272,28 @@ def ob_statecov(cls):
         for attr, va, vb in diffs:
             probs.append(("copy-fidelity", f"after the history '{hname}', {cls}.branch() has {attr} = {vb} while the solver has {va}",
                           {"class": cls, "attr": attr, "history": hname}))
+        # weak sets of child solvers (CompositeFrontend): the children a branch holds are the same objects, so the set of children still to be
+        # checked must be the same set, and no child may be owned (= written in place) by both; an unpickled composite has new child objects:
+        # by position in _solver_list every child that was still to be checked must still be (treating more of them as unchecked is sound)
+        if hasattr(s2, "_solver_list"):
+            for attr in [a for a, v in vars(s2).items() if isinstance(v, weakref.WeakSet)]:
+                n += 1
+                mine, theirs = set(map(id, vars(s2)[attr])), set(map(id, vars(b2).get(attr, ())))
+                if attr == "_owned_solvers":
+                    if mine & theirs:
+                        probs.append(("ownership", f"after the history '{hname}', a child solver is in {attr} of both {cls} and its branch",
+                                      {"class": cls, "attr": attr, "history": hname}))
+                elif mine != theirs:
+                    probs.append(("copy-fidelity", f"after the history '{hname}', {cls}.branch() has {len(theirs)} children in {attr} while the solver has {len(mine)}",
+                                  {"class": cls, "attr": attr, "history": hname}))
         try:
             u2 = pickle.loads(pickle.dumps(s2))
+            if hasattr(s2, "_solver_list") and "_unchecked_solvers" in vars(s2):
+                n += 1
+                pos = lambda z: {i for i, ch in enumerate(z._solver_list) if ch in z._unchecked_solvers}  # noqa
+                if len(s2._solver_list) == len(u2._solver_list) and not pos(s2) <= pos(u2):
+                    probs.append(("pickle-fidelity", f"after the history '{hname}', children {sorted(pos(s2) - pos(u2))} of the {cls} were still to be checked for satisfiability; "
+                                  "on the unpickled one they count as checked", {"class": cls, "attr": "_unchecked_solvers", "history": hname}))
             diffs, k = _fidelity(s2, u2, skip=PICKLE_DIFFERS_OK)
             if "_replacement_cache" in vars(u2) and _norm(vars(u2)["_replacement_cache"]) != _norm(vars(u2).get("_replacements")):
                 diffs.append(("_replacement_cache", "a copy of _replacements", repr(vars(u2)["_replacement_cache"])[:120]))
